@@ -13,7 +13,7 @@
 """
 import ast
 
-from .model import AnalysisError, own_nodes, own_nodes_ordered, is_name, is_self_attr, norm, parents
+from .model import AnalysisError, own_nodes, own_nodes_ordered, is_name, is_self_attr, norm, parents, local_names
 from .cfg import ExcMatcher
 
 MUTATORS = ('append', 'add', 'update', 'extend', 'insert', 'setdefault', 'pop', 'remove', 'discard', 'clear', 'popitem', 'appendleft')
@@ -978,6 +978,61 @@ def rule_no_import_time_container_mutated(cm, rep, rid):
         rep.violation(rid, '%s:%s' % (f.qname, norm(call)[:50]), 'the %s created at %s line %d when the module is imported (%s) can be the object that '
                       '%s changes in place here: it exists once per process, so the next compilation starts from what this one left in it' % (
                           site[0], site[1], site[2], norm(alloc)[:30], norm(call)[:40]), f.loc(call))
+    # objects of the repository's own classes created at import time: a method that stores into its receiver, called on one
+    mods = ('yp_generator', 'yp_prolog_visitor', 'compiler', 'errors')
+    nobj = 0
+
+    def writes_self(m, seen):
+        if m in seen:
+            return None
+        seen.add(m)
+        me = m.params[0] if m.params else 'self'
+        for x in own_nodes_ordered(m.node):
+            if isinstance(x, (ast.Attribute, ast.Subscript)) and isinstance(x.ctx, (ast.Store, ast.Del)):
+                root = x
+                while isinstance(root, (ast.Attribute, ast.Subscript)):
+                    root = root.value
+                if is_name(root, me):
+                    return x
+            if isinstance(x, ast.Call) and isinstance(x.func, ast.Attribute):
+                if x.func.attr in MUTATORS and isinstance(x.func.value, ast.Attribute) and is_name(x.func.value.value, me):
+                    return x
+                if is_name(x.func.value, me) and m.cls is not None:
+                    g = cm.repo.lookup_method(m.cls, x.func.attr)
+                    if g is not None:
+                        r = writes_self(g, seen)
+                        if r is not None:
+                            return r
+        return None
+    for f in cm.repo.all_functions(mods):
+        for x in own_nodes_ordered(f.node):
+            tgt = None
+            if isinstance(x, ast.Call) and isinstance(x.func, ast.Attribute) and isinstance(x.func.value, ast.Name):
+                tgt = x.func.value.id
+            elif isinstance(x, ast.Attribute) and isinstance(x.ctx, (ast.Store, ast.Del)) and isinstance(x.value, ast.Name):
+                tgt = x.value.id
+            if tgt is None or tgt in local_names(f):
+                continue
+            r = cm.repo.resolve_name(f, tgt)
+            if not (r and r[0] == 'var' and isinstance(r[2], ast.Call) and isinstance(r[2].func, ast.Name)):
+                continue
+            kmod = r[1] if hasattr(r[1], 'classes') else None
+            k = kmod.classes.get(r[2].func.id) if kmod is not None else None
+            if k is None:
+                continue
+            nobj += 1
+            if isinstance(x, ast.Attribute):
+                w = x
+            else:
+                m = cm.repo.lookup_method(k, x.func.attr)
+                w = writes_self(m, set()) if m is not None else None
+            if w is not None:
+                n += 1
+                rep.violation(rid, '%s:%s' % (f.qname, norm(x)[:50]), 'the %s object %s is created once, when the module is imported, and %s changes it '
+                              '(%s): it exists once per process, so compilations that follow or overlap one another share what it holds' % (
+                                  k.name, tgt, norm(x)[:30], norm(w)[:40]), f.loc(x))
+    if not n:
+        rep.ok(rid, 'import-time objects', '%d use(s) of objects of repository classes created at import time, none changes them' % nobj, None)
     if not n:
         rep.ok(rid, 'import-time containers', '%d container(s) created at import time, none of them reaches an in-place change (%d change sites followed)' % (
             len(fl.module_sites), len(fl.mutated)), None)
